@@ -293,6 +293,18 @@ fn choose(g: &mut Inner, me: usize, runnable: &[usize]) -> usize {
                 pool[(splitmix(&mut g.rng) % pool.len() as u64) as usize]
             }
         }
+        "delay" => {
+            let target = g.plan.as_ref().map(|p| p.sched.target.clone()).unwrap_or_default();
+            let held: Vec<usize> =
+                runnable.iter().cloned().filter(|&i| !target.is_empty() && g.tasks[i].pending.starts_with(&target)).collect();
+            let free: Vec<usize> = runnable.iter().cloned().filter(|i| !held.contains(i)).collect();
+            let pool: &[usize] = if free.is_empty() || splitmix(&mut g.rng) % 100 < p { runnable } else { &free };
+            if pool.contains(&me) && splitmix(&mut g.rng) % 100 < 60 {
+                me
+            } else {
+                pool[(splitmix(&mut g.rng) % pool.len() as u64) as usize]
+            }
+        }
         "conflict" => {
             // tasks whose pending operation touches a resource another runnable task's pending
             // operation also touches
